@@ -5,9 +5,12 @@ CONSTANTS
   InWriter = "positional"
   OutWriter = "all"
   CloneKeeps = {"qdim", "peraxis"}
+  TableKept = "always"
+  CloneQuant = "private"
   MaxIn = 4
 INVARIANT OptionRoundTrip
 INVARIANT OperandPositions
 INVARIANT TensorRoundTrip
+INVARIANT WeightRoundTrip
 INVARIANT OutputsDeclared
 CHECK_DEADLOCK FALSE
